@@ -13,11 +13,11 @@ import os
 import sys
 
 sys.path.insert(0, os.path.dirname(os.path.dirname(os.path.abspath(__file__))))
-from harness import agp, agpnative as an  # noqa: E402
+from harness import agp, agpnative as an, c02  # noqa: E402
 from symex import report  # noqa: E402
 
 PID = 'C06'
-WANT = ('C06',)
+WANT = ('C06', 'K1')
 
 
 def run_job(cfg, label):
@@ -37,6 +37,15 @@ def scenarios(run):
             for r in ((2.5,) if quick else (2.5, 1.3)):
                 cfg = dict(base, N=1, r=r, seed=sd, kpre=kpre, nsym=3, script=[('iter', kpre), ('other', 2), ('iter', 2)], tags=['prefix'])
                 out.append((cfg, 'prefix f#%d (%d concrete values) r=%s + 2 arbitrary values' % (sd, kpre, r)))
+    for sd in seeds[:3]:
+        cfg = dict(base, N=1, r=2.5, seed=sd, kpre=2, nsym=3, script=[('solve',)], iters_limit=5, eps='sym', tags=['stopped-by-accuracy'])
+        out.append((cfg, 'Solve stopped by a symbolic eps: prefix f#%d (2 concrete values) + arbitrary values' % sd))
+    # a very narrow box: distinct trial points agree to many decimal places
+    for sd in seeds[:2]:
+        cfg = dict(base, N=1, r=2.5, seed=sd, kpre=5, nsym=2, script=[('iter', 6)], box=([2e-5], [3e-5]), tags=['narrow-box'])
+        out.append((cfg, 'narrow box [2e-5, 3e-5]: prefix f#%d (5 concrete values) + 1 arbitrary value' % sd))
+        cfg = dict(base, N=2, r=2.5, seed=sd, kpre=5, nsym=1, script=[('iter', 5)], box=([2e-5, 1e-4], [3e-5, 6e-4]), density=3, tags=['narrow-box'])
+        out.append((cfg, 'narrow 2-D box: prefix f#%d (5 concrete values)' % sd))
     # the very first trial fails, the solver is resumed
     cfg = dict(base, N=1, r=2.5, seed=seeds[0], kpre=0, nsym=4, script=[('solve',), ('iter', 3)], iters_limit=50, fail=(0, 'RuntimeError(msg)'),
                tags=['first-trial-fails'])
@@ -54,6 +63,9 @@ def main():
     quick = run.quick
     plan = [(1, 1), (1, 2), (2, 2)] if quick else [(1, 1), (1, 2), (2, 2), (3, 2), (1, 3), (2, 3)]
     jobs = agp.step_jobs(WANT, plan)
+    for N in (1, 2, 3):
+        for ends in ('unevaluated', 'evaluated'):
+            jobs.append((c02.renew_job, (N, ends)))        # lengths and links written by the real RenewSearchData, all inputs, exact arithmetic
     for cfg, label in scenarios(run):
         jobs.append((run_job, (cfg, label)))
     run.bound(step='%s (N, evaluated trials), all coordinates and values symbolic' % plan,
@@ -65,7 +77,7 @@ def main():
     run.finish('traversal strictly increasing from 0 to 1 with consistent links and count; stored lengths, images and values are those of the '
                'completed evaluations; own value holders',
                vacuity=['recalc-pending', 'recalc-not-pending', 'interior-interval', 'left-boundary-interval', 'right-boundary-interval',
-                        'fresh', 'prefix', 'first-trial-fails'])
+                        'fresh', 'prefix', 'first-trial-fails', 'narrow-box', 'stopped-by-accuracy'])
 
 
 if __name__ == '__main__':
